@@ -23,8 +23,10 @@ MAX_BLOCKS = 6000
 
 
 def load_baseline():
+    """{'fns': [..], 'adts': [..]} recorded at the pinned commit by tools/mkbaseline.py; None if missing"""
     try:
-        return json.load(open(BASELINE))
+        b = json.load(open(BASELINE))
+        return b if isinstance(b, dict) else {'fns': b, 'adts': []}
     except Exception:
         return None
 
@@ -48,6 +50,7 @@ def candidates(j, baseline):
     """paths of functions to splice into their callers"""
     if not baseline:
         return set()
+    baseline = baseline['fns']
     bpaths = {b['path'] for b in baseline}
     fns = [f for f in j['fns'] if f['label'] == 'fn']
     cur = {f['path'] for f in fns}
@@ -96,6 +99,7 @@ def _splice(f, bi, callee):
     """splice (an already flattened) callee into block bi of f; returns the caller-local index of the callee's return place"""
     blk = f['blocks'][bi]
     t = blk['term']
+    f.setdefault('orig_nlocals', len(f['locals']))
     loff = len(f['locals'])
     boff = len(f['blocks'])
     for l in callee['locals']:
@@ -186,10 +190,364 @@ def inline_new_helpers(j):
     # transitively: a candidate kept alive only by a removed candidate
     j['fns'] = [f for f in j['fns'] if not (f['label'] == 'fn' and f['path'] in removed)]
     info['removed'] = sorted(removed)
+    # new private structs that only bundle locals of a function are taken apart again (one local per field)
+    new_structs = {a['path']: a for a in j['adts'] if baseline.get('adts') and a['path'] not in baseline['adts'] and a.get('kind') == 'Struct' and len(a['variants']) == 1}
+    info['split_structs'] = {}
+    if new_structs:
+        for f in j['fns']:
+            n = split_structs(f, new_structs)
+            if n:
+                info['split_structs'][f['path']] = n
+    for f in j['fns']:
+        if f.get('spliced') or f.get('split'):
+            collapse_moves(f)
     for f in j['fns']:
         if f.get('ret_locals'):
             thread_variants(f)
     return info
+
+
+def collapse_moves(f):
+    """`X = move Y` between two whole locals, X defined only there, at least one of them introduced by splicing / splitting: X is Y
+    (a by-value parameter of a spliced helper, the binding of a destructured bundle field).  Keeps the identity of a vector that is
+    built in one phase and consumed in another."""
+    n0 = f.get('orig_nlocals', len(f['locals']))
+    ndefs = {}
+    for b in f['blocks']:
+        for s in b['stmts']:
+            if s['k'] == 'assign' and not s['place']['p']:
+                ndefs[s['place']['l']] = ndefs.get(s['place']['l'], 0) + 1
+        t = b['term']
+        if t['k'] == 'call' and not t['dest']['p']:
+            ndefs[t['dest']['l']] = ndefs.get(t['dest']['l'], 0) + 1
+    ren = {}
+    for b in f['blocks']:
+        keep = []
+        for s in b['stmts']:
+            if s['k'] == 'assign' and not s['place']['p'] and s['rv']['k'] == 'use' and s['rv']['op'].get('k') == 'move' and not s['rv']['op']['place']['p']:
+                x, y = s['place']['l'], s['rv']['op']['place']['l']
+                if x != 0 and x > f['argc'] and ndefs.get(x) == 1 and (x >= n0 or y >= n0) and f['locals'][x]['ty'] == f['locals'][y]['ty'] and x != y:
+                    ren[x] = y
+                    if not f['locals'][y].get('name') and f['locals'][x].get('name'):
+                        f['locals'][y]['name'] = f['locals'][x]['name']
+                    continue
+            keep.append(s)
+        b['stmts'] = keep
+    if not ren:
+        return 0
+
+    def res(l):
+        d = 0
+        while l in ren and d < 50:
+            l = ren[l]
+            d += 1
+        return l
+
+    def fix(x):
+        if isinstance(x, dict):
+            if x.get('k') in ('live', 'dead') and 'l' in x:
+                return
+            for k, v in list(x.items()):
+                if k == 'l' and isinstance(v, int):
+                    x[k] = res(v)
+                else:
+                    fix(v)
+        elif isinstance(x, list):
+            for v in x:
+                fix(v)
+    for b in f['blocks']:
+        b['stmts'] = [s for s in b['stmts'] if not (s['k'] in ('live', 'dead') and s['l'] in ren)]
+        fix(b['stmts'])
+        fix(b['term'])
+    return len(ren)
+
+
+# ---- scalar replacement of new private structs ---------------------------------------------------------------------------
+
+def _base_ty(ty):
+    t = ty.strip()
+    ref = False
+    while t.startswith('&'):
+        ref = True
+        t = t[1:].lstrip()
+        if t.startswith("'"):
+            t = t.split(' ', 1)[1] if ' ' in t else t
+        if t.startswith('mut '):
+            t = t[4:]
+    return t.split('<', 1)[0], ref
+
+
+def split_structs(f, new_structs):
+    """replace locals of a new struct type by one local per field when the struct is only built, moved whole between such locals,
+    borrowed into local reference aliases and accessed field by field (what a `State { .. }` bundle extracted from a long function
+    looks like after its helper functions have been spliced back).  Returns the number of struct locals split."""
+    locals_ = f['locals']
+    struct_l, ref_l = {}, {}
+    for l in locals_:
+        base, ref = _base_ty(l['ty'])
+        if base in new_structs and l['i'] != 0 and l['i'] > f['argc']:
+            (ref_l if ref else struct_l)[l['i']] = base
+    if not struct_l:
+        return 0
+    bad = set()          # locals that cannot be split
+    alias = {}           # ref local -> struct local (or another ref local, resolved later)
+    union = {}           # struct local -> representative (moved-between groups must be split together)
+
+    def find(x):
+        while union.get(x, x) != x:
+            x = union[x]
+        return x
+
+    def whole(op):
+        return op.get('k') in ('move', 'copy') and not op['place']['p']
+
+    # pass 1: classify every occurrence
+    def scan_place(pl, ctx_ok=False):
+        l = pl['l']
+        pr = pl['p']
+        if l in struct_l:
+            if pr and pr[0]['k'] == 'field':
+                return
+            if not pr and ctx_ok:
+                return
+            bad.add(l)
+        elif l in ref_l:
+            if len(pr) >= 2 and pr[0]['k'] == 'deref' and pr[1]['k'] == 'field':
+                return
+            if not pr and ctx_ok:
+                return
+            bad.add(l)
+
+    def scan_generic(x):
+        if isinstance(x, dict):
+            if 'l' in x and 'p' in x and isinstance(x['p'], list):
+                scan_place(x)
+                for e in x['p']:
+                    if e['k'] == 'index' and (e['l'] in struct_l or e['l'] in ref_l):
+                        bad.add(e['l'])
+                return
+            for v in x.values():
+                scan_generic(v)
+        elif isinstance(x, list):
+            for v in x:
+                scan_generic(v)
+
+    for b in f['blocks']:
+        for s in b['stmts']:
+            if s['k'] in ('live', 'dead'):
+                continue
+            if s['k'] != 'assign':
+                scan_generic(s)
+                continue
+            pl, rv = s['place'], s['rv']
+            dl = pl['l'] if not pl['p'] else None
+            if dl in struct_l:
+                if rv['k'] == 'aggregate' and rv['kind'].get('a') == 'adt' and rv['kind'].get('path') == struct_l[dl]:
+                    for o in rv['ops']:
+                        scan_generic(o)
+                    continue
+                if rv['k'] == 'use' and whole(rv['op']) and rv['op']['place']['l'] in struct_l and struct_l[rv['op']['place']['l']] == struct_l[dl]:
+                    a, c = find(dl), find(rv['op']['place']['l'])
+                    union[a] = c
+                    continue
+                bad.add(dl)
+                scan_generic(rv)
+                continue
+            if dl in ref_l:
+                src = None
+                if rv['k'] == 'ref' and not rv['place']['p'] and rv['place']['l'] in struct_l:
+                    src = rv['place']['l']
+                elif rv['k'] == 'ref' and [e['k'] for e in rv['place']['p']] == ['deref'] and rv['place']['l'] in ref_l:
+                    src = rv['place']['l']
+                elif rv['k'] in ('use', 'copyforderef') and (rv.get('op') or {}).get('k') in ('move', 'copy') and not rv['op']['place']['p'] and rv['op']['place']['l'] in ref_l:
+                    src = rv['op']['place']['l']
+                if src is None or (dl in alias and alias[dl] != src):
+                    bad.add(dl)
+                    scan_generic(rv)
+                else:
+                    alias[dl] = src
+                continue
+            scan_place(pl)
+            scan_generic(rv)
+        t = b['term']
+        if t['k'] == 'drop' and not t['place']['p'] and t['place']['l'] in struct_l:
+            continue
+        scan_generic(t)
+
+    # resolve aliases; a reference alias that is bad poisons the struct it points to, and a bad struct poisons its group
+    def resolve(r, depth=0):
+        x = alias.get(r)
+        while x in ref_l and depth < 10:
+            if x in bad:
+                return None
+            x = alias.get(x)
+            depth += 1
+        return x if x in struct_l else None
+
+    changed = True
+    while changed:
+        changed = False
+        for r in ref_l:
+            tgt = resolve(r)
+            if r in bad:
+                x = alias.get(r)
+                while x is not None and x not in bad:
+                    bad.add(x)
+                    changed = True
+                    x = alias.get(x)
+            elif tgt is None and r in alias:
+                bad.add(r)
+                changed = True
+        groups = {}
+        for sl in struct_l:
+            groups.setdefault(find(sl), []).append(sl)
+        for g in groups.values():
+            if any(x in bad for x in g) and not all(x in bad for x in g):
+                bad.update(g)
+                changed = True
+        for r in ref_l:
+            tgt = resolve(r)
+            if tgt is not None and tgt in bad and r not in bad:
+                bad.add(r)
+                changed = True
+    good = [sl for sl in struct_l if sl not in bad]
+    if not good:
+        return 0
+    good = set(good)
+    good_refs = {r: resolve(r) for r in ref_l if r not in bad and resolve(r) in good}
+    # a reference that is used but whose target is not split must stay: then its target cannot be split either (already handled via bad)
+    # new locals
+    fl = {}
+    for sl in sorted(good):
+        adt = new_structs[struct_l[sl]]
+        for i, fd in enumerate(adt['variants'][0]['fields']):
+            n = len(locals_)
+            nm = locals_[sl].get('name')
+            loc = {'i': n, 'ty': fd['ty'], 'mut': True, 'line': locals_[sl].get('line', 0)}
+            if nm:
+                loc['name'] = '%s.%s' % (nm, fd['name'])
+            locals_.append(loc)
+            fl[(sl, i)] = n
+
+    def fix_place(pl):
+        l, pr = pl['l'], pl['p']
+        if l in good and pr and pr[0]['k'] == 'field':
+            pl['l'] = fl[(l, pr[0]['i'])]
+            pl['p'] = pr[1:]
+        elif l in good_refs and len(pr) >= 2 and pr[0]['k'] == 'deref' and pr[1]['k'] == 'field':
+            pl['l'] = fl[(good_refs[l], pr[1]['i'])]
+            pl['p'] = pr[2:]
+
+    def fix_generic(x):
+        if isinstance(x, dict):
+            if 'l' in x and 'p' in x and isinstance(x['p'], list):
+                fix_place(x)
+                return
+            for v in x.values():
+                fix_generic(v)
+        elif isinstance(x, list):
+            for v in x:
+                fix_generic(v)
+
+    # occurrences of each local as the base of a place: a temporary that is defined once (by a call or an assignment) and only
+    # moved into a field of the bundle is the field itself (`let mut v = Vec::new()` written as `State { v: Vec::new(), .. }`)
+    occ = {}
+
+    def count(x):
+        if isinstance(x, dict):
+            if 'l' in x and 'p' in x and isinstance(x['p'], list):
+                occ[x['l']] = occ.get(x['l'], 0) + 1
+            elif x.get('k') in ('live', 'dead'):
+                return
+            for v in x.values():
+                count(v)
+        elif isinstance(x, list):
+            for v in x:
+                count(v)
+    count(f['blocks'])
+    defsite = {}
+    for b in f['blocks']:
+        for s in b['stmts']:
+            if s['k'] == 'assign' and not s['place']['p']:
+                defsite.setdefault(s['place']['l'], []).append(('stmt', s))
+        t = b['term']
+        if t['k'] == 'call' and not t['dest']['p']:
+            defsite.setdefault(t['dest']['l'], []).append(('call', t))
+
+    def retarget(op, newl):
+        """if op is `move tmp` with tmp defined once and used only here, make that definition write newl; returns True if done"""
+        if op.get('k') != 'move' or op['place']['p']:
+            return False
+        tmp = op['place']['l']
+        if tmp <= f['argc'] or occ.get(tmp, 0) != 2 or len(defsite.get(tmp, [])) != 1:
+            return False
+        kind, node = defsite[tmp][0]
+        tgt = node['place'] if kind == 'stmt' else node['dest']
+        tgt['l'] = newl
+        if locals_[tmp].get('name') is None and locals_[newl].get('name'):
+            pass
+        return True
+
+    nblocks = len(f['blocks'])
+    extra = []
+    for b in f['blocks']:
+        out = []
+        for s in b['stmts']:
+            if s['k'] in ('live', 'dead'):
+                if s['l'] in good or s['l'] in good_refs:
+                    continue
+                out.append(s)
+                continue
+            if s['k'] != 'assign':
+                fix_generic(s)
+                out.append(s)
+                continue
+            pl, rv = s['place'], s['rv']
+            dl = pl['l'] if not pl['p'] else None
+            if dl in good:
+                nf = len(new_structs[struct_l[dl]]['variants'][0]['fields'])
+                if rv['k'] == 'aggregate':
+                    for i, o in enumerate(rv['ops']):
+                        fix_generic(o)
+                        if retarget(o, fl[(dl, i)]):
+                            continue
+                        out.append({'k': 'assign', 'place': {'l': fl[(dl, i)], 'p': [], 'ty': locals_[fl[(dl, i)]]['ty']}, 'rv': {'k': 'use', 'op': o}, 'line': s.get('line', 0)})
+                else:
+                    src = rv['op']['place']['l']
+                    for i in range(nf):
+                        out.append({'k': 'assign', 'place': {'l': fl[(dl, i)], 'p': [], 'ty': locals_[fl[(dl, i)]]['ty']},
+                                    'rv': {'k': 'use', 'op': {'k': rv['op']['k'], 'place': {'l': fl[(src, i)], 'p': [], 'ty': locals_[fl[(src, i)]]['ty']}}}, 'line': s.get('line', 0)})
+                continue
+            if dl in good_refs:
+                continue
+            fix_generic(s)
+            out.append(s)
+        b['stmts'] = out
+        t = b['term']
+        if t['k'] == 'drop' and not t['place']['p'] and t['place']['l'] in good:
+            sl = t['place']['l']
+            nf = len(new_structs[struct_l[sl]]['variants'][0]['fields'])
+            tgt = t['target']
+            # drop the fields one after the other
+            chain = []
+            for i in range(nf):
+                chain.append({'k': 'drop', 'place': {'l': fl[(sl, i)], 'p': [], 'ty': locals_[fl[(sl, i)]]['ty']}, 'needs_drop': t.get('needs_drop', True),
+                              'span': t.get('span'), 'unwind': t.get('unwind', 'Continue'), 'target': None})
+            cur = b
+            for i, d in enumerate(chain):
+                if i == 0:
+                    cur['term'] = d
+                else:
+                    nb = {'i': nblocks + len(extra), 'cleanup': b['cleanup'], 'stmts': [], 'term': d}
+                    cur['term']['target'] = nb['i']
+                    extra.append(nb)
+                    cur = nb
+            cur['term']['target'] = tgt
+        else:
+            fix_generic(t)
+    f['blocks'].extend(extra)
+    f.setdefault('split', []).extend(sorted(good))
+    return len(good)
 
 
 # ---- variant threading ---------------------------------------------------------------------------------------------------
